@@ -37,6 +37,17 @@ def eval_case(cfg, game, kinds=spaces.KINDS):
             out.append((kind, "draw", f"{kind}.predict_draw = {d!r}, closed form = {rd!r}"))
         if len(r) != len(game) or any(abs(p - b) > TOL for (_, p), b in zip(r, rr)):
             out.append((kind, "rank", f"{kind}.predict_rank probabilities = {[p for _, p in r]}, closed form = {rr}"))
+        try:
+            al = pred.predict_all_aliased(model, game)
+        except Exception as e:
+            out.append((kind, "exc", f"{kind}: predictor raised {type(e).__name__} when identical teams are one list object: {e}"))
+            continue
+        if al is not None:
+            w2, d2, r2 = al
+            if (len(w2) != len(game) or any(abs(a - b) > TOL for a, b in zip(w2, rw)) or abs(d2 - rd) > TOL
+                    or len(r2) != len(game) or any(abs(p - b) > TOL for (_, p), b in zip(r2, rr))):
+                out.append((kind, "alias", f"{kind}: with identical teams passed as one list object in several slots the predictions are "
+                                           f"win {w2} draw {d2!r} rank {[p for _, p in r2]}; closed forms win {rw} draw {rd!r} rank {rr}"))
     return out
 
 
@@ -63,3 +74,7 @@ def replay(case):
 def main(ctx, t0):
     acc = core.run_units(pred.units(ctx), run_unit, ctx)
     return core.finish(PID, ctx, LEVEL, acc, RULE, {"exhaustive": True, "plan": [f"{s}/{K}" for s, K in pred.plan_spaces(ctx)]}, ASSUMPTIONS, t0)
+
+
+def replay_unit(unit, ctx):
+    return run_unit(unit, ctx)
